@@ -42,7 +42,7 @@ fn bytes_of(f: &FileSpec) -> Vec<u8> {
             let mut v = f.text.as_bytes().to_vec();
             // multi-byte characters in front of the malformed bytes, at both alignments
             v.extend_from_slice("// \u{e9}\u{e9}\u{e9}\u{e9}\u{e9}\u{e9}\u{e9}\u{e9}\u{e9}\u{e9}\u{e9}\u{e9}\u{e9}\u{e9}\u{e9}\u{e9}\u{e9}\u{e9}\u{e9}\u{e9}".as_bytes());
-            if f.name.len() % 2 == 1 {
+            if f.name.bytes().map(|b| b as usize).sum::<usize>() % 2 == 1 {
                 v.push(b'x');
             }
             v.extend_from_slice(&[0xC3, 0x28, b'\n']);
